@@ -10,6 +10,7 @@ import (
 	"time"
 
 	"github.com/aptpod/iscp-go/encoding"
+	encjson "github.com/aptpod/iscp-go/encoding/json"
 	"github.com/aptpod/iscp-go/encoding/protobuf"
 	"github.com/aptpod/iscp-go/message"
 	"github.com/aptpod/iscp-go/transport"
@@ -178,6 +179,15 @@ type Broker struct {
 	pointHolds []*pointHold
 	handlerHolds []*handlerHold
 	noRead     bool
+}
+
+// NewBrokerEnc is NewBroker with the wire encoding of the scenario ("json", otherwise protobuf).
+func NewBrokerEnc(rec *Rec, enc string) *Broker {
+	b := NewBroker(rec)
+	if enc == "json" {
+		b.enc = encjson.NewEncoding()
+	}
+	return b
 }
 
 func NewBroker(rec *Rec) *Broker {
